@@ -144,11 +144,16 @@ def oracle(c, r):
         if inc != st["inc"] or out != st["out"]: return "counters %s/%s, recount %s/%s" % (st["inc"], st["out"], inc, out)
         return None
     if o["init"] == "err": return {"violates": False}
+    exp_dir = [list(row) for row in o["st0"]["dir"]]       # the direction table followed from the definition: an accepted set_orientation(a, b, st) stores st at (a, b) and its mirror at (b, a)
     for i, ir in enumerate([{"st": o["st0"], "res": ["ok"], "unchanged_on_err": True}] + o["steps"]):
+        if i > 0 and c["ops"][i - 1][0] == 0 and ir["res"] and ir["res"][0] == "ok":
+            _, a_, b_, st_ = c["ops"][i - 1]
+            if a_ < n and b_ < n and M[a_][b_]: exp_dir[a_][b_] = st_; exp_dir[b_][a_] = {0: 0, 1: 2, 2: 1}[st_]
+        if ir["st"]["dir"] != exp_dir: return {"violates": True, "why": "after step %d the direction table is %s, by definition %s" % (i - 1, ir["st"]["dir"], exp_dir)}
         b = bad(ir["st"])
         if b: return {"violates": True, "why": "after step %d: %s" % (i - 1, b)}
         if not ir["unchanged_on_err"]: return {"violates": True, "why": "refused call changed state at step %d" % (i - 1)}
-        if i > 0 and c["ops"][i - 1][0] in (1, 2):
+        if i > 0 and c["ops"][i - 1][0] in (1, 2, 3):
             full = all(ir["st"]["dir"][a][b] != 0 for a in range(n) for b in range(n) if M[a][b])
             got = (ir["res"][0] == 1) if c["ops"][i - 1][0] == 1 else (ir["res"][0] == "ok")
             if got != full: return {"violates": True, "why": "step %d: fullness reported %s, actually %s" % (i - 1, got, full)}
